@@ -915,6 +915,16 @@ def run(chk):
                 if s1 is None or s2 is None:
                     continue
                 check_2d(chk, drv, s1, s2, rng, chk.n(5, 7))
+            # 2-D spaces with ONE clamped cell in one direction (a Bezier direction: the local coefficient block is the whole row / column)
+            for k in range(chk.n(4, 16)):
+                dA, dB = [1, 2, 3, 4][k % 4], rng.randint(1, 4)
+                kindA = KINDS[1 + 2 * (k % 2)]
+                one = build(chk, dA, False, kindA, make_breaks(rng, kindA, 1), uniform_flag=False)
+                other = random_space(chk, dB, force_general=True)
+                if one is None or other is None:
+                    continue
+                s1, s2 = (other, one) if k % 4 < 2 else (one, other)
+                check_2d(chk, drv, s1, s2, rng, chk.n(4, 6))
     except Abort:
         chk.notes['aborted'] = 'stopped after %d hangs/exceptions of the real code' % MAX_CRASHES
     finally:
